@@ -264,9 +264,13 @@ async fn drive(s: &MtScn) -> MtOutcome {
 		tokio::time::timeout(Duration::from_secs(5), t).await.ok();
 	}
 	let ended = tokio::time::timeout(Duration::from_secs(5), task_mon).await;
-	tokio::time::sleep(Duration::from_millis(20)).await;
-	for w in &waiters {
-		w.abort();
+	// every waiter was woken when the job ended; how long the runtime takes to run them all is the machine's business
+	// (a fixed 20 ms pause here once blamed the job for a loaded machine): wait for each, bounded, and only then give up
+	let deadline = tokio::time::Instant::now() + Duration::from_secs(10);
+	for w in &mut waiters {
+		if tokio::time::timeout_at(deadline, &mut *w).await.is_err() {
+			w.abort();
+		}
 	}
 	task_abort.abort();
 
